@@ -1,2 +1,2 @@
 """Sidecar contracts on the real functions of /repo/jsonrpclib (no edit of the repository)."""
-MODULES = ["jsonrpc_c06", "jsonrpc_msg", "jsonclass_c", "server", "transport", "threadpool"]
+MODULES = ["jsonrpc_c06", "jsonrpc_msg", "jsonclass_c", "server", "transport", "threadpool", "client_calls"]
